@@ -4,7 +4,43 @@ HOOK_COMMITS = []
 
 NOT_APPLICABLE = {}
 
+ENGINE_NOTE = ("Trusted: the tagged encoding of values and the observation of the engine state through the exported engine.Catalog() "
+               "(documents, index configurations, Index.List()). Filters stay within what Query!MatchImpl models; $currentDate is excluded. "
+               "Error classes are compared as error-or-success.")
+
 CHECKS = {
+    "C01": {
+        "level": "model_checking",
+        "text": "Every call of seeded random histories and of the targeted scenario families (failure grid, collision, change-log and index scenarios) is recorded "
+                "from the real engine with the full state before and after; TLC evaluates the sequential reference model Database!Exec on the observed pre-state "
+                "of every call and compares counts, ids, documents, error-or-success, the complete post-state of every collection and the change events.",
+        "note": ENGINE_NOTE,
+        "technique": "TLA+ reference model of the driver API (Database.tla) evaluated by TLC on traces recorded from the real engine (code->spec trace validation)",
+    },
+    "C02": {
+        "level": "model_checking",
+        "text": "The k-th-of-n failure grid (n<=4, every k, six failure kinds, every entry point incl. ordered/unordered batches, replace, find-and-modify, upserts, "
+                "index calls; each followed by probe writes) and random histories are recorded with full state dumps; TLC requires pre = post and no event for every "
+                "failed single write and the per-item fold of Database!Exec for multi-item calls, and judges every index listing after every call.",
+        "note": ENGINE_NOTE,
+        "technique": "TLA+ reference model evaluated by TLC on recorded failure-grid traces (code->spec trace validation)",
+    },
+    "C07": {
+        "level": "model_checking",
+        "text": "Database!UniqueOK (the specification's own multikey/compound/partial key extractor) is evaluated by TLC on every observed state of collision "
+                "scenarios, the failure grid and random histories, and each call's outcome is compared with Database!Exec in both directions (a duplicate must be "
+                "rejected, a non-duplicate must not be rejected for uniqueness).",
+        "note": ENGINE_NOTE,
+        "technique": "TLA+ invariant UniqueOK and reference model evaluated by TLC on recorded traces (code->spec trace validation)",
+    },
+    "C15": {
+        "level": "model_checking",
+        "text": "After every recorded call the listing of every index is judged by TLC with Database!IndexListingOK (exactly the documents of the partial domain, "
+                "once each, in key order), the _id_ index must be present, and index definitions must equal Database!Exec's (equal re-creation is a no-op, a "
+                "conflicting one fails, drops spare _id_); the position index of every document set is checked by the harness.",
+        "note": ENGINE_NOTE + " Index.List() hides duplicate entries of one document.",
+        "technique": "TLA+ invariant IndexListingOK and reference model evaluated by TLC on recorded traces (code->spec trace validation)",
+    },
     "C10": {
         "level": "model_checking",
         "text": "Every generated (document, filter) case is evaluated by the real mongokit.Match and by TLC on Query!MatchImpl (all inputs) and, "
